@@ -748,6 +748,8 @@ struct World<'a> {
     apps: Vec<Option<AppAction>>,
     /// every packet ever sent towards the client (post-fault bytes), for replay injections
     sent_s2c: Vec<Vec<u8>>,
+    /// every packet the client emitted (for reflection injections)
+    sent_c2s: Vec<Vec<u8>>,
     swarm_off: [bool; 6],
     perfect: bool,
 }
@@ -1119,6 +1121,7 @@ impl<'a> World<'a> {
     // ----- network ---------------------------------------------------------------------------
 
     fn net_c2s(&mut self, bytes: Vec<u8>) {
+        self.sent_c2s.push(bytes.clone());
         let n = self.n_c2s;
         self.n_c2s += 1;
         let reliable = self.cfg.is_reliable();
@@ -1524,6 +1527,16 @@ impl<'a> World<'a> {
                     self.do_recv(b, origin, format!("inj:{}", kind));
                 }
             }
+            "reflect" => {
+                // the client's own datagram comes back (hair-pin NAT, reflecting peer): a request-class message
+                // that carries the id of one of its own, possibly still outstanding, requests
+                if !self.sent_c2s.is_empty() {
+                    let i = self.sent_c2s.len() - 1 - (kv_u64(kv, "back", 0) as usize).min(self.sent_c2s.len() - 1);
+                    let b = self.sent_c2s[i].clone();
+                    self.ledger.stats.fault("inj_reflected_own_packet");
+                    self.do_recv(b, origin, "inj:reflect".into());
+                }
+            }
             "request" => {
                 let mut id = [0u8; 12];
                 id[0] = 0x77;
@@ -1735,7 +1748,13 @@ impl<'a> World<'a> {
                 Some(match kind {
                     0 => format!("t={} kind=replay pkt={}", at, rng.below(16)),
                     1 => format!("t={} kind=unknown id={} err={}", at, rng.below(1000), rng.below(2)),
-                    2 => format!("t={} kind=request", at),
+                    2 => {
+                        if rng.chance(1, 2) {
+                            format!("t={} kind=request", at)
+                        } else {
+                            format!("t={} kind=reflect back={}", at, rng.below(3))
+                        }
+                    }
                     3 => format!(
                         "t={} kind=ind integ={}{}",
                         at,
@@ -2049,6 +2068,7 @@ pub fn run(src: &mut Source, profile: &Profile, opts: &RunOpts) -> RunResult {
         ledger,
         apps: vec![],
         sent_s2c: vec![],
+        sent_c2s: vec![],
         swarm_off,
         perfect,
     };
